@@ -1779,3 +1779,19 @@ Proof. intros s R. apply no_residue. apply reachable_Inv. exact R. Qed.
 
 Theorem wait_no_double_close : forall s, reachable s -> dblclose s = false.
 Proof. intros s R. apply (inv_d _ (reachable_Inv s R)). Qed.
+
+(** a call whose check finds an expired record behaves as if the key were deleted:
+    it returns ErrNotExist and the record is gone afterwards (C06 in the waiter LTS) *)
+Theorem wait_on_expired_notexist : forall s t k v r,
+  pc_of s t = Some (PCheck k v) -> store s k = Some r -> expired r (now s) = true ->
+  exists s', step s (LCheck t) = Some s' /\ pc_of s' t = Some (PDone RNotExist) /\ store s' k = None.
+Proof.
+  intros s t k v r Hp Hst He. destruct (pc_of_some _ _ _ Hp) as (th & Ht & Hpc).
+  assert (Hl : live s k = None) by (unfold live; rewrite Hst, He; reflexivity).
+  cbn [step]. rewrite Hp.
+  destruct (get_rec_spec s k) as (Hf & Hthr & _ & _ & Hnone & _).
+  destruct (get_rec s k) as [s1 found]. cbn [fst snd] in *. subst found. rewrite Hl.
+  eexists. split; [reflexivity|]. split.
+  - eapply pc_of_set_pc. rewrite Hthr. eauto.
+  - destruct (store_set_pc s1 t (PDone RNotExist)) as (-> & _). apply Hnone. exact Hl.
+Qed.
